@@ -89,8 +89,11 @@ class C05(ProcessEngine):
         """compile each case alone in a fresh process (a history of length 1)"""
         memo = {}
         for i, (cid, c) in enumerate(cases.items()):
-            res = self.history(ctx, [[dict(c, id=cid)]], 0, f"fresh{i % 8}")
-            memo[cid] = res[0]
+            try:
+                res = self.history(ctx, [[dict(c, id=cid)]], 0, f"fresh{i % 8}")
+                memo[cid] = res[0]
+            except runner.ToolError:
+                memo[cid] = {"id": cid, "status": "abort"}      # dies alone (stack overflow ...): C01's business
         return memo
 
     def run(self, ctx):
